@@ -19,27 +19,33 @@ Definition string_eqb (a b : obj) : bool :=
 (** table kinds: 0 = (make-hash-table eq?) [hash-by-identity, immediates only], 1 = eqv? with `hash',
     2 = equal? with `hash', 3 = string=? with string-hash, 4 = user procedures
     (lambda (a b) (= (modulo a 7) (modulo b 7))) / (lambda (k n) (+ (modulo k 7) 20)) whose hash
-    leaves [0,n) for small n (the clamp of sexp_get_bucket) *)
+    leaves [0,n) for small n (the clamp of sexp_get_bucket), 5 = user procedures with a WEAK hash (round 4):
+    (lambda (a b) (= (modulo a 41) (modulo b 41))) / (lambda (k n) (product 5 (modulo (modulo k 41) 3))) [product = the multiplication sign] — up to 41 keys in
+    three chains (buckets 0, 5, 10 of every vector), so every regrow 23 -> 46 -> ... -> 736 moves long chains *)
 Definition k_eq (kind : nat) (a b : obj) : bool :=
   match kind with
   | 0%nat => same_word a b
   | 1%nat => eqvb a b
   | 2%nat => equalb a b
   | 3%nat => string_eqb a b
-  | _ => (fixval a mod 7) =? (fixval b mod 7)
+  | 4%nat => (fixval a mod 7) =? (fixval b mod 7)
+  | _ => (fixval a mod 41) =? (fixval b mod 41)
   end.
 Definition k_hash (kind : nat) (a : obj) (n : nat) : nat :=
   match kind with
   | 0%nat => Z.to_nat (hash_by_identity a (Z.of_nat n))
   | 1%nat | 2%nat => Z.to_nat (hash_one a (Z.of_nat n))
   | 3%nat => Z.to_nat (string_hash a (Z.of_nat n))
-  | _ => Z.to_nat (fixval a mod 7 + 20)
+  | 4%nat => Z.to_nat (fixval a mod 7 + 20)
+  | _ => Z.to_nat (5 * ((fixval a mod 41) mod 3))
   end.
 
 (** HCopy: the current table becomes (hash-table-copy current), the previous current table is kept as `the other';
     HKeep: the other := (hash-table-copy current), the current table stays; HSwap: exchange the two.
     Set/Del/Upd act on the current table only; BOTH tables are observed after every operation. *)
-Inductive hop : Type := HSet (k : nat) (v : Z) | HDel (k : nat) | HCopy | HUpd (k : nat) (d : Z) | HKeep | HSwap.
+Inductive hop : Type := HSet (k : nat) (v : Z) | HDel (k : nat) | HCopy | HUpd (k : nat) (d : Z) | HKeep | HSwap
+  | HNop             (* round 4: an update whose procedure raises: the table must not change *)
+  | HUpdP (k : nat). (* round 4: hash-table-update! without default: succ on a present key, error and no change otherwise *)
 
 Definition lookup_val (c : option (nat * Z)) : option Z := option_map snd c.
 
@@ -60,6 +66,8 @@ Definition ostep (tt : @table nat Z * option (@table nat Z)) (o : hop) : @table 
   | HUpd k d => (tupdate hf ef t k Z.succ d, u)
   | HKeep => (t, Some (tcopy hf ef t))
   | HSwap => match u with Some t' => (t', Some t) | None => (t, u) end
+  | HNop => (t, u)
+  | HUpdP k => (match tref hf ef t k with Some (_, v) => tupdate hf ef t k Z.succ v | None => t end, u)
   end.
 
 (** what is observed after each operation: size slot, number of buckets, hash-table->alist in its
@@ -91,6 +99,8 @@ Definition mstep' (mm : @amap nat Z * option (@amap nat Z)) (o : hop) : @amap na
   | HUpd k d => (mset cf m k (Z.succ (match mref cf m k with Some (_, v) => v | None => d end)), u)
   | HKeep => (m, Some m)
   | HSwap => match u with Some m' => (m', Some m) | None => (m, u) end
+  | HNop => (m, u)
+  | HUpdP k => (match mref cf m k with Some (_, v) => mset cf m k (Z.succ v) | None => m end, u)
   end.
 Definition mdump (m : @amap nat Z) : Z * list (nat * Z) * list (option Z) :=
   (Z.of_nat (length m), m, map (fun i => lookup_val (mref cf m i)) (seq 0 (length cls))).
